@@ -25,6 +25,14 @@ for every arm, S @ (Z0 + sum g g') = I since the last initialisation *as observe
 implementation* (sigma_inv is a scalar multiple of I again), size = parameter count of the live
 output layer, agent.exp_layer is that live layer.
 
+The agent's life besides deciding is part of the histories: `setattr lamb|gamma v`, rl_hp mutations whose
+hp_config lists lamb and gamma, explicit `init` (init_params), `test` (agent.test(env) on a real BanditEnv for
+block contexts), `mode` (set_training_mode) — followed by decisions.  The lambda of the property is the agent's
+CURRENT lamb at the last initialisation observed on the implementation (model: ghost `lamb0`, `bandit setlamb`);
+every decision get_action returns counts as chosen, in training and in evaluation mode.  Network configurations
+are swept (head output activation, layer_norm, latent and hidden sizes, activations): the reference features are
+torch.autograd gradients of the network OUTPUT on the agent's own actor.
+
 Lambda semantics (DESIGN D16): Z0 = lamb*I is the property text ("paper"); `sigma_inv0 = lamb*I`
 ("code") is probed on exactly lamb != 1 through chk.finding("C19-lambda-not-inverted").  A stale
 `exp_layer` after load is probed through chk.finding("C19-exp-layer-stale-after-load").
@@ -65,10 +73,29 @@ def net_config(case) -> dict:
     head = {"hidden_size": list(case["head"]), "min_mlp_nodes": 1, "max_mlp_nodes": case.get("max_nodes", 11),
             "min_hidden_layers": 1, "max_hidden_layers": 3, "layer_norm": bool(case.get("layer_norm", True)),
             "activation": case.get("activation", "ReLU")}
-    return {"latent_dim": 4, "min_latent_dim": 2, "max_latent_dim": 8,
-            "encoder_config": {"hidden_size": [4], "min_mlp_nodes": 2, "max_mlp_nodes": 8,
+    if case.get("out_act"):                  # non-default head: the gradient features carry act'(z)
+        head["output_activation"] = case["out_act"]
+    lat = case.get("latent", [4, 2, 8])      # latent_dim, min_latent_dim, max_latent_dim
+    return {"latent_dim": lat[0], "min_latent_dim": lat[1], "max_latent_dim": lat[2],
+            "encoder_config": {"hidden_size": list(case.get("enc", [4])), "min_mlp_nodes": 2, "max_mlp_nodes": 8,
                                "activation": case.get("activation", "ReLU")},
             "head_config": head}
+
+
+def hp_config(case):
+    """`hp: "lamb"`: the RL-hyper-parameter mutation can only pick lamb or gamma (any attribute of the agent
+    may be listed); `"all"`: lr, batch_size, learn_step, lamb, gamma; default: the usual three"""
+    import agents
+    from agilerl.algorithms.core.registry import HyperparameterConfig, RLParameter
+    kind = case.get("hp", "default")
+    if kind == "default":
+        return agents.default_hp_config(case["algo"])
+    extra = dict(lamb=RLParameter(min=0.05, max=8.0), gamma=RLParameter(min=0.1, max=4.0))
+    if kind == "lamb":
+        return HyperparameterConfig(**extra)
+    return HyperparameterConfig(lr=RLParameter(min=1e-6, max=1e-1), batch_size=RLParameter(min=2, max=64, dtype=int),
+                                learn_step=RLParameter(min=1, max=64, dtype=int, grow_factor=1.5, shrink_factor=0.75),
+                                **extra)
 
 
 def obs_dim(case) -> int:
@@ -81,7 +108,7 @@ def build(case, seed):
     cls = agents.algo_class(case["algo"])
     agents.seed_all(seed)
     return cls(spaces.Box(-1.0, 1.0, (obs_dim(case),), np.float32), spaces.Discrete(case["arms"]),
-               net_config=net_config(case), hp_config=agents.default_hp_config(case["algo"]),
+               net_config=net_config(case), hp_config=hp_config(case),
                gamma=case["gamma"], lamb=case["lamb"], batch_size=4, learn_step=1, device="cpu",
                accelerator=None)
 
@@ -96,6 +123,37 @@ def make_context(case, seed) -> np.ndarray:
             ctx[i, i * d:(i + 1) * d] = x
         return ctx.astype(np.float32)
     return rng.uniform(-1, 1, size=(k, d)).astype(np.float32)
+
+
+class DenseEnv:
+    """stand-in for BanditEnv when every arm has its own dense context (reset() -> contexts, step(k) ->
+    (contexts, reward)); block contexts use the real agilerl.wrappers.learning.BanditEnv"""
+
+    def __init__(self, case, seed):
+        self.case, self.seed, self.t = case, seed, 0
+
+    def reset(self):
+        self.t += 1
+        return make_context(self.case, self.seed * 1000 + self.t)
+
+    def step(self, k):
+        self.t += 1
+        return make_context(self.case, self.seed * 1000 + self.t), float((int(k) + self.t) % 2)
+
+
+def make_env(case, seed):
+    if case["ctx_kind"] != "block":
+        return DenseEnv(case, seed)
+    import pandas as pd
+    from agilerl.wrappers.learning import BanditEnv
+    rng = np.random.default_rng([seed & 0xFFFFFFFF, 23])
+    rows = max(6, 2 * case["arms"])
+    feats = pd.DataFrame(rng.uniform(-1, 1, size=(rows, case["ctx_dim"])).astype(np.float32))
+    targs = pd.DataFrame({"y": [i % case["arms"] for i in range(rows)]})
+    import warnings
+    with warnings.catch_warnings():
+        warnings.simplefilter("ignore", FutureWarning)       # pandas positional indexing inside BanditEnv
+        return BanditEnv(feats, targs)
 
 
 def live_layer(agent):
@@ -219,27 +277,49 @@ def run_impl(case, fault=None) -> Trace:
     one's matrix shows on the agent that did not act."""
     import agents
     tr = Trace()
-    algo, lamb = case["algo"], float(case["lamb"])
-    lamb32 = float(np.float32(lamb))
-    live = [{"agent": build(case, case["seed"]), "Z": None}]
+    algo = case["algo"]
+    live = [{"agent": build(case, case["seed"]), "Z": None, "lamb": float(case["lamb"]), "since": 0}]
     cur = 0
     tmpdir = None
 
-    def start_history(slot, S):
-        """an initialisation was observed on the implementation: classify it, restart the Gram matrix"""
-        kind = init_kind(S, lamb32)
+    def start_history(slot, S, where="construction"):
+        """an initialisation was observed on the implementation: classify it against the agent's CURRENT
+        lamb (the lambda of the property is the one in force at the last initialisation), restart the
+        Gram matrix"""
+        lamb = float(slot["agent"].lamb)
+        kind = init_kind(S, lamb)
+        if tr.sem is not None and kind in ("paper", "code") and kind != tr.sem and abs(lamb - 1.0) > 1e-6:
+            kind = "other"              # the reading of lamb is fixed at construction; c happens to equal lamb
         n = S.shape[0]
+        slot["since"] = 0
         if kind in ("paper", "code"):
-            if kind == "code" and abs(lamb32 - 1.0) > 1e-6:
+            if kind == "code" and abs(lamb - 1.0) > 1e-6:
                 tr.findings[F_LAMBDA] = (f"{algo}(lamb={lamb}): sigma_inv after init_params = {float(S[0, 0]):g}*I, "
-                                         f"the inverse of lamb*I is {1.0 / lamb32:g}*I")
-            z = (1.0 / lamb32) if kind == "code" else lamb32
+                                         f"the inverse of lamb*I is {1.0 / lamb:g}*I")
+            z = (1.0 / lamb) if kind == "code" else lamb
             slot["Z"] = z * np.eye(n)
         else:
-            tr.problems.append(f"sigma_inv after initialisation is neither I/lamb nor lamb*I (lamb={lamb}): "
-                               f"diag[0]={float(S[0, 0]):g}")
+            tr.problems.append(f"{where}: sigma_inv was (re-)initialised to {float(S[0, 0]):g}*I, which is neither "
+                               f"I/lamb nor lamb*I for the agent's current lamb={lamb:g} (1/lamb={1.0 / lamb:g})")
             slot["Z"] = None
         return kind
+
+    def sync_lamb(slot, where):
+        """agent.lamb is an ordinary attribute: tell the model whenever it has changed"""
+        now = float(slot["agent"].lamb)
+        if now != slot["lamb"]:
+            slot["lamb"] = now
+            tr.add(f"bandit setlamb {frac(now)}", ("eq", "ok", where))
+            tr.tags.append("lamb-changed")
+
+    def reinit_observed(slot, where, explicit):
+        """after an op that runs init_params: restart the oracle's history if sigma_inv is a scalar matrix again"""
+        S = slot["agent"].sigma_inv.detach()
+        k = init_kind(S, float(slot["agent"].lamb))
+        if k in ("paper", "code") or (k == "other" and (explicit or slot["since"] > 0)):
+            # (a scalar matrix after decisions can only come from an initialisation)
+            start_history(slot, S, where)
+            tr.tags.append("reinitialised")
 
     def observe(i: int, where: str):
         ag = live[i]["agent"]
@@ -271,7 +351,8 @@ def run_impl(case, fault=None) -> Trace:
     try:
         kind = start_history(live[0], live[0]["agent"].sigma_inv.detach())
         tr.sem = kind if kind in ("paper", "code") else "paper"
-        tr.add(f"bandit new {tr.sem} {frac(lamb32)} {layer_numel(live_layer(live[0]['agent']))}", ("eq", "ok", "new"))
+        tr.add(f"bandit new {tr.sem} {frac(float(case['lamb']))} {layer_numel(live_layer(live[0]['agent']))}",
+               ("eq", "ok", "new"))
         after("after construction")
         for oi, op in enumerate(case["ops"]):
             where = f"op {oi} {op[0]}" + (f" (agent {cur})" if len(live) > 1 else "")
@@ -302,7 +383,7 @@ def run_impl(case, fault=None) -> Trace:
                         slack = TOL * smax * float(np.abs(g64[k]).sum()) ** 2
                         tr.add("bandit bonus " + " ".join(frac(float(x)) for x in g[k].tolist()),
                                ("bonus", float(b_impl[k]), where, slack))
-                    tr.expect.append(("argmax", dict(algo=algo, mu=mu.tolist(), gamma=float(case["gamma"]),
+                    tr.expect.append(("argmax", dict(algo=algo, mu=mu.tolist(), gamma=float(agent.gamma),
                                                      mask=op[2], action=a, n=g64.shape[0]), where))
                     tr.model_lines.append("bandit count")
                 tr.add("bandit update " + " ".join(frac(float(x)) for x in g[a].tolist()),
@@ -312,6 +393,9 @@ def run_impl(case, fault=None) -> Trace:
                     tr.tags.append("act-raised")
                     break
                 tr.updates += 1
+                slot["since"] += 1
+                if not bool(getattr(agent, "training", True)):
+                    tr.tags.append("act-in-eval-mode")
                 if slot["Z"] is not None and slot["Z"].shape[0] == g64.shape[1]:
                     slot["Z"] = slot["Z"] + np.outer(g64[a], g64[a])
                 tr.tags.append("act-masked" if mask is not None else "act")
@@ -333,15 +417,42 @@ def run_impl(case, fault=None) -> Trace:
                 agent = mutations(op[1], op[2]).mutation([agent])[0]
                 slot["agent"] = agent
                 P = layer_numel(live_layer(agent))
+                sync_lamb(slot, where)               # an rl_hp mutation may have changed lamb before the hook ran
                 tr.add(f"bandit mutate {P}", ("eq", "ok", where))
                 tr.tags.append(f"mut-{op[1]}")
+                if op[1] == "rl_hp":
+                    tr.tags.append(f"rl_hp-{agent.mut}")
                 if P != before:
                     tr.resizes += 1
                     tr.tags.append("output-layer-resized")
-                S = agent.sigma_inv.detach()
-                if init_kind(S, lamb32) in ("paper", "code"):
-                    start_history(slot, S)
-                    tr.tags.append("reinitialised")
+                reinit_observed(slot, where, explicit=False)
+                after(where)
+            elif op[0] == "setattr":                 # plain assignment of a hyper-parameter
+                if op[1] not in ("lamb", "gamma"):
+                    raise InfraError(f"setattr of {op[1]}")
+                setattr(agent, op[1], float(op[2]))
+                sync_lamb(slot, where)
+                tr.tags.append(f"setattr-{op[1]}")
+                after(where)
+            elif op[0] == "init":                    # explicit agent.init_params()
+                agent.init_params()
+                sync_lamb(slot, where)
+                tr.add("bandit hook", ("eq", "ok", where))
+                tr.tags.append("init")
+                reinit_observed(slot, where, explicit=True)
+                after(where)
+            elif op[0] == "test":                    # fitness evaluation as the training loops do it
+                random.seed(op[1])
+                fit = agent.test(make_env(case, op[1]), max_steps=int(op[2]) if len(op) > 2 else 3, loop=1)
+                if not np.isfinite(float(fit)):
+                    tr.problems.append(f"{where}: test() returned {fit}")
+                tr.add("bandit eval", ("eq", "ok", where))
+                tr.tags.append("test")
+                after(where)
+            elif op[0] == "mode":
+                agent.set_training_mode(bool(op[1]))
+                tr.add("bandit eval", ("eq", "ok", where))
+                tr.tags.append(f"mode-{'train' if op[1] else 'eval'}")
                 after(where)
             elif op[0] == "clone":
                 child = agent.clone()
@@ -352,7 +463,8 @@ def run_impl(case, fault=None) -> Trace:
                     slot["agent"] = child
                     tr.add("bandit clone", ("eq", "ok", where))
                 else:
-                    live.append({"agent": child, "Z": None if slot["Z"] is None else slot["Z"].copy()})
+                    live.append({"agent": child, "Z": None if slot["Z"] is None else slot["Z"].copy(),
+                                 "lamb": slot["lamb"], "since": slot["since"]})
                     tr.add("bandit fork", ("eq", str(len(live) - 1), where))
                     cur = len(live) - 1
                 tr.tags.append("clone")
@@ -491,6 +603,14 @@ def gen_case(rng: random.Random, tier: str, grow: bool = False):
         "layer_norm": rng.random() < 0.7, "activation": rng.choice(["ReLU", "Tanh", "ELU", "GELU"]),
         "seed": rng.randrange(1 << 30),
     }
+    # non-default network configurations: the gradient features are whatever autograd gives for THIS network
+    if rng.random() < 0.4:
+        case["out_act"] = rng.choice(["Sigmoid", "Tanh", "Softsign", "ELU"])
+    if rng.random() < 0.4:
+        case["latent"] = rng.choice([[2, 2, 8], [6, 2, 8], [8, 4, 8], [3, 2, 4]])
+    if rng.random() < 0.4:
+        case["enc"] = rng.choice([[2], [6], [3, 5], [8]])
+    case["hp"] = rng.choice(["default", "lamb", "all"])
     if grow:
         case["head"], case["max_nodes"] = [8], 24
     ops = []
@@ -502,6 +622,29 @@ def gen_case(rng: random.Random, tier: str, grow: bool = False):
     acts = 0
     clones = 0
     for _ in range(n_ops):
+        if ops and rng.random() < 0.10:
+            # the agent's life besides deciding: hyper-parameters change, the matrix is re-initialised
+            # explicitly, fitness is evaluated, the training flag is switched; decisions follow each of them
+            q = rng.random()
+            if q < 0.40:
+                name = "lamb" if rng.random() < 0.7 else "gamma"
+                ops.append(["setattr", name, rng.choice([0.25, 0.5, 1.0, 2.0, 3.0, 0.7])])
+                if rng.random() < 0.6:
+                    ops.append(["act", rng.randrange(1 << 30), None])
+                    acts += 1
+                ops.append(rng.choice([["init"], ["mutate", "none", rng.randrange(1 << 30)],
+                                       ["mutate", "arch", rng.randrange(1 << 30)], ["learn", rng.randrange(1 << 30)]]))
+            elif q < 0.55:
+                ops.append(["mutate", "rl_hp", rng.randrange(1 << 30)])
+            elif q < 0.65:
+                ops.append(["init"])
+            elif q < 0.85:
+                ops.append(["test", rng.randrange(1 << 30), rng.randint(1, 3)])
+            else:
+                ops.append(["mode", rng.random() < 0.5])
+            ops.append(["act", rng.randrange(1 << 30), None])
+            acts += 1
+            continue
         r = rng.random()
         if (r < p_act or not ops) and acts < 30:
             mask = None
@@ -561,11 +704,47 @@ def crafted_cases():
             out.append({"algo": algo, "lamb": lamb, "gamma": gamma, "ctx_dim": 3, "arms": arms, "ctx_kind": kind,
                         "head": [6], "layer_norm": variant == 0, "activation": "ReLU", "seed": 700 + variant,
                         "ops": ops})
+    base = {"gamma": 1.0, "ctx_dim": 3, "arms": 3, "head": [5], "layer_norm": True, "activation": "ReLU"}
+    one = lambda k, n=3: [1 if j == k else 0 for j in range(n)]      # noqa: E731
+    for i, algo in enumerate(("NeuralUCB", "NeuralTS")):
+        # lamb (and gamma) change during the agent's life; the next initialisation must use the current value
+        ops = [["act", 1, None], ["act", 2, None], ["setattr", "lamb", 0.25], ["act", 3, None], ["init"],
+               ["act", 4, None], ["setattr", "lamb", 3.0], ["mutate", "none", 5], ["act", 6, None],
+               ["setattr", "gamma", 2.0], ["act", 7, None], ["setattr", "lamb", 0.5], ["act", 8, None],
+               ["mutate", "arch", 9], ["act", 10, None], ["clone"], ["act", 11, None], ["init"], ["act", 12, None],
+               ["switch", 0], ["act", 13, None], ["reload", "load"], ["setattr", "lamb", 2.0], ["init"],
+               ["act", 14, None]]
+        out.append(dict(base, algo=algo, lamb=2.0, ctx_kind="dense", seed=710 + i, hp="default", ops=ops))
+        ops = [["act", 1, None]]
+        for s in range(6):                   # rl_hp mutations that can only pick lamb or gamma
+            ops += [["mutate", "rl_hp", 40 + s], ["act", 50 + s, None], ["act", 60 + s, one(s % 3)]]
+        ops += [["clone"], ["mutate", "rl_hp", 70], ["act", 71, None], ["switch", 0], ["act", 72, None],
+                ["reload", "ckpt_fresh"], ["mutate", "rl_hp", 73], ["act", 74, None]]
+        out.append(dict(base, algo=algo, lamb=1.0, ctx_kind="block", ctx_dim=2, seed=720 + i, hp="lamb", ops=ops))
+        # the head ends in a non-identity output activation: features carry act'(z)
+        for j, act in enumerate(("Sigmoid", "Tanh")):
+            ops = [["act", 1, None], ["act", 2, one(0)], ["act", 3, one(1)], ["act", 4, one(2)], ["learn", 5],
+                   ["act", 6, one(0)], ["act", 7, None], ["mutate", "param", 8], ["act", 9, None], ["act", 10, one(2)]]
+            out.append(dict(base, algo=algo, lamb=[0.5, 2.0][j], ctx_kind=["dense", "block"][j], seed=730 + 2 * i + j,
+                            out_act=act, layer_norm=bool(j), latent=[[6, 2, 8], [3, 2, 4]][j], enc=[[3, 5], [6]][j],
+                            ops=ops))
+        # architecture mutations until the output layer has been resized (remove_layer: 4 -> 8 parameters)
+        ops = [["act", 1, None]]
+        for sd in range(10):
+            ops += [["mutate", "arch", sd], ["act", 20 + sd, None]]
+        out.append(dict(base, algo=algo, lamb=2.0, ctx_kind="dense", head=[7, 3], seed=750 + i, ops=ops))
+        # decisions after a fitness evaluation / in evaluation mode count like any other
+        ops = [["act", 1, None], ["test", 2, 3], ["act", 3, None], ["act", 4, one(1)], ["learn", 5], ["act", 6, None],
+               ["clone"], ["act", 7, None], ["switch", 0], ["act", 8, None], ["reload", "load"], ["act", 9, None],
+               ["mode", True], ["act", 10, None], ["mode", False], ["act", 11, None], ["mutate", "none", 12],
+               ["act", 13, None], ["test", 14, 2], ["act", 15, None]]
+        out.append(dict(base, algo=algo, lamb=1.5, ctx_kind=["block", "dense"][i], ctx_dim=2, seed=740 + i, ops=ops))
     return out
 
 
 def key_of(case):
-    return [case[k] for k in ("algo", "lamb", "gamma", "ctx_dim", "arms", "ctx_kind", "head", "seed")] + [case["ops"]]
+    return [case[k] for k in ("algo", "lamb", "gamma", "ctx_dim", "arms", "ctx_kind", "head", "seed")] + \
+        [case.get(k) for k in ("out_act", "latent", "enc", "hp")] + [case["ops"]]
 
 
 # ----------------------------------------------------------------------------- check
@@ -634,7 +813,10 @@ def run(chk: Check) -> None:
     torch.set_num_threads(1)
     n_cases = 30 if chk.tier == "quick" else 360
     n_grow = 2 if chk.tier == "quick" else 24
-    chk.rule = ("random histories (act with/without mask | learn | Mutations.mutation of each of the five kinds | "
+    chk.rule = ("crafted + random histories; besides the ops below: lamb/gamma changed by assignment or by an rl_hp mutation "
+                "whose hp_config lists them, explicit init_params, agent.test(env) on a BanditEnv, set_training_mode, "
+                "decisions in both modes; network sweep: head output activation none/Sigmoid/Tanh/Softsign/ELU, layer_norm, "
+                "latent 2-8, encoder and head widths; (act with/without mask | learn | Mutations.mutation of each of the five kinds | "
                 "clone with parent and copies kept alive and deciding alternately | save+load three ways) on real NeuralUCB/NeuralTS agents: context dim 2-4, 2-4 arms, "
                 "BanditEnv-style block contexts or dense ones, lamb in {1,.5,2,.25,4,1.5,.1,3.7}, output layer "
                 "3-12 parameters (grow cases: 9 -> 25); distinct = distinct (configuration, op list); "
@@ -653,13 +835,13 @@ def run(chk: Check) -> None:
         c = json.loads(f.read_text())
         cases.append((c.get("replay", c), f.name))
     for c in crafted_cases():
-        cases.append((c, "crafted: learn directly followed by a mask-forced decision"))
+        cases.append((c, "crafted history (harness/c19.py crafted_cases)"))
     for i in range(n_cases):
         cases.append((gen_case(rng, chk.tier), None))
     for i in range(n_grow):
         cases.append((gen_case(rng, chk.tier, grow=True), None))
     ndiff = 0
-    reported = 0
+    failing = []
     for case, origin in cases:
         tr, diffs = one_case(chk, case)
         nontrivial = tr.updates >= 2 and any(t.startswith(("learn", "mut-", "clone", "reload")) for t in tr.tags)
@@ -675,8 +857,11 @@ def run(chk: Check) -> None:
         if not tr.problems and not diffs:
             continue
         ndiff += bool(diffs)
-        if reported < 3:
-            reported += 1
+        failing.append((case, origin, tr, diffs))
+    # failing inputs of the property oracle first (shortest histories first), then pure model disagreements
+    failing.sort(key=lambda f: (not f[2].problems, len(f[0]["ops"])))
+    for i, (case, origin, tr, diffs) in enumerate(failing):
+        if i < 3:
             report(chk, case, tr, diffs, origin)
         else:
             chk.violation((tr.problems or diffs)[0], None, no_input=not tr.problems)
